@@ -58,8 +58,24 @@ V("C11", "precision-dropped", "fire", "C11.R4", "precision not part of the chang
   ("src/pyhf/tensor/manager.py", "    tensorlib_changed = bool(\n        (new_backend.name != this.state['current'][0].name)\n        | (new_backend.precision != this.state['current'][0].precision)\n    )", "    tensorlib_changed = bool(new_backend.name != this.state['current'][0].name)"))
 V("C11", "strong-ref", "fire", "C11.R5", "callback registry keeps a strong reference to the receiver",
   ("src/pyhf/events.py", "            callback_ref = weakref.ref(callback.__func__), weakref.ref(\n                callback.__self__\n            )", "            callback_ref = weakref.ref(callback.__func__), (lambda o: (lambda: o))(\n                callback.__self__\n            )"))
-V("C11", "no-liveness", "fire", "C11.R5", "bound callback called without liveness test",
+V("C11", "no-liveness", "fire", "C11.R6", "bound callback called without liveness test",
   ("src/pyhf/events.py", "                arg_ref = arg()\n                if arg_ref is not None:\n                    func()(arg_ref, *args, **kwargs)", "                arg_ref = arg()\n                func()(arg_ref, *args, **kwargs)"))
+V("C11", "dispatch-reversed", "fire", "C11.R6", "callbacks run newest first (a viewer is refreshed after its owner)",
+  ("src/pyhf/events.py", "    def __call__(self, *args, **kwargs):\n        for func, arg in self._callbacks:", "    def __call__(self, *args, **kwargs):\n        for func, arg in reversed(self._callbacks):"))
+V("C11", "disabled-ignored", "fire", "C11.R6", "trigger fires disabled events",
+  ("src/pyhf/events.py", "is_noop = bool(event in __disabled_events or event not in __events)", "is_noop = bool(event not in __events)"))
+V("C11", "remove-while-iterating", "fire", "C11.R6", "dead entries removed from the list being iterated: the next subscriber is skipped",
+  ("src/pyhf/events.py", "                if arg_ref is not None:\n                    func()(arg_ref, *args, **kwargs)", "                if arg_ref is None:\n                    self._callbacks.remove((func, arg))\n                    continue\n                func()(arg_ref, *args, **kwargs)"))
+V("C11", "kwargs-dropped-in-dispatch", "fire", "C11.R6", "keyword arguments of the trigger not handed to bound callbacks",
+  ("src/pyhf/events.py", "                    func()(arg_ref, *args, **kwargs)", "                    func()(arg_ref, *args)"))
+V("C11", "flush-first-no-check", "fire", "C11.R6", "flush before the loop instead of a liveness test inside: a receiver collected by an earlier callback is called",
+  ("src/pyhf/events.py", "        for func, arg in self._callbacks:\n            # weakref: needs to be de-ref'd first before calling\n            if arg is not None:\n                arg_ref = arg()\n                if arg_ref is not None:\n                    func()(arg_ref, *args, **kwargs)", "        self._flush()\n        for func, arg in self._callbacks:\n            # weakref: needs to be de-ref'd first before calling\n            if arg is not None:\n                arg_ref = arg()\n                func()(arg_ref, *args, **kwargs)"))
+V("C11", "dispatch-over-copy-lazy-flush", "silent", "", "dispatch iterates a copy and leaves flushing to the callbacks property",
+  ("src/pyhf/events.py", "        for func, arg in self._callbacks:\n            # weakref: needs to be de-ref'd first before calling", "        for func, arg in list(self._callbacks):\n            # weakref: needs to be de-ref'd first before calling"),
+  ("src/pyhf/events.py", "        # avoids redundant dead weakref checking in subsequent calls.\n        self._flush()\n", "        # avoids redundant dead weakref checking in subsequent calls.\n"))
+V("C11", "weakmethod", "silent", "", "bound callbacks stored as weakref.WeakMethod",
+  ("src/pyhf/events.py", "            callback_ref = weakref.ref(callback.__func__), weakref.ref(\n                callback.__self__\n            )", "            callback.__self__\n            callback_ref = weakref.WeakMethod(callback), None"),
+  ("src/pyhf/events.py", "            else:\n                func()(*args, **kwargs)", "            else:\n                live = func()\n                if live is not None:\n                    live(*args, **kwargs)"))
 V("C11", "rename-refresh", "silent", "", "refresh method renamed consistently",
   ("src/pyhf/modifiers/lumi.py", "        self._precompute()\n        events.subscribe('tensorlib_changed')(self._precompute)", "        self._refresh()\n        events.subscribe('tensorlib_changed')(self._refresh)"),
   ("src/pyhf/modifiers/lumi.py", "    def _precompute(self):", "    def _refresh(self):"))
